@@ -141,6 +141,24 @@ pub struct Case {
     pub chunks: usize,
     pub acgt: bool,
     pub sched: Sched,
+    /// stale `temp_kmers.part_P_chunk_C` files of an imaginary earlier run are placed in the output
+    /// directory before counting (P < 24, C < 6): a correct run never merges them
+    #[serde(default)]
+    pub decoys: bool,
+}
+
+pub fn place_decoys(outdir: &Path, k: usize) {
+    for p in 0..24 {
+        for c in 0..6 {
+            let mut body = String::new();
+            for j in 0..5u64 {
+                // plausible lines: small codes < 4^k with a count
+                let code = (p as u64 * 7 + c as u64 * 3 + j) % model::pow4(k.min(31));
+                body.push_str(&format!("{}\t{}\n", code, 1000 + j));
+            }
+            let _ = std::fs::write(outdir.join(format!("temp_kmers.part_{}_chunk_{}", p, c)), body);
+        }
+    }
 }
 
 fn verdict_of(v: &mut Verdict, o: &CtrOut, want: &HashMap<u64, u64>, k: usize, acgt: bool, what: &str) {
@@ -173,7 +191,16 @@ pub fn check_case(c: &Case) -> Verdict {
     let seqs: Vec<&[u8]> = c.recs.iter().map(|r| &r.seq.0[..]).collect();
     let want = model::count_table(&seqs, c.k);
     let cfg = CtrCfg { k: c.k, threads: c.threads, mem_gb: mem_for_limit(target_limit(&c.recs, c.chunks)), acgt: c.acgt };
-    let o = exec(&io::path_str(&input), &outdir, &cfg, &c.sched);
+    if c.decoys {
+        place_decoys(&outdir, c.k);
+    }
+    let mut o = exec(&io::path_str(&input), &outdir, &cfg, &c.sched);
+    if c.decoys {
+        // chunk/partition numbers are read from the temp files present after counting: not meaningful with decoys;
+        // decoys that the run did not overwrite legitimately stay behind
+        o.listing_after.retain(|f| !f.starts_with("temp_kmers."));
+        v.class("stale-temp-files-present");
+    }
     v.class(match o.chunks { 0 | 1 => "chunks<=1", 2..=3 => "chunks=2-3", 4..=9 => "chunks=4-9", _ => "chunks>=10" });
     v.class(match o.parts { 0 | 1 => "parts<=1", 2..=3 => "parts=2-3", 4..=9 => "parts=4-9", _ => "parts>=10" });
     v.class(match c.threads { 1 => "threads=1", 2..=3 => "threads=2-3", 4..=8 => "threads=4-8", _ => "threads>8" });
@@ -198,12 +225,12 @@ impl Leg for Runs {
     type Case = Case;
     const NAME: &'static str = "runs";
     fn strategy(tier: Tier) -> BoxedStrategy<Case> {
-        (gen::k_strategy(), gen::threads_strategy(), prop::sample::select(vec![1usize, 2, 3, 5, 12, 30]), any::<bool>())
-            .prop_flat_map(move |(k, threads, chunks, acgt)| {
+        (gen::k_strategy(), gen::threads_strategy(), prop::sample::select(vec![1usize, 2, 3, 5, 12, 30]), any::<bool>(), prop::bool::weighted(0.2))
+            .prop_flat_map(move |(k, threads, chunks, acgt, decoys)| {
                 let p = rec_params(tier, k);
                 (gen::records_mixed_in_container(p), gen::sched_strategy(true, 120)).prop_map(move |((recs, cont), sched)| {
                     let threads = if matches!(sched, Sched::Controlled(_)) { ((threads - 1) % 6) + 1 } else { threads };
-                    Case { recs, cont, k, threads, chunks, acgt, sched }
+                    Case { recs, cont, k, threads, chunks, acgt, sched, decoys }
                 })
             })
             .boxed()
@@ -227,7 +254,7 @@ impl Leg for Large {
                 let p = RecParams { max_records: nrec, scale: k, max_len: 700, degenerate_w: 0, bounds: [k, 0, 0], nuc_only: false };
                 (proptest::collection::vec(gen::seq(k, 700, true), nrec / 2..=nrec), Just(p)).prop_map(move |(seqs, _p)| {
                     let recs: Vec<Rec> = seqs.into_iter().enumerate().map(|(i, s)| Rec { id: format!("r{}", i), desc: None, seq: Bytes(s) }).collect();
-                    Case { recs, cont: Container::plain_fasta(), k, threads, chunks, acgt, sched: Sched::Free }
+                    Case { recs, cont: Container::plain_fasta(), k, threads, chunks, acgt, sched: Sched::Free, decoys: false }
                 })
             })
             .boxed()
@@ -237,6 +264,71 @@ impl Leg for Large {
         let distinct: std::collections::HashSet<u64> = c.recs.iter().flat_map(|r| model::canonical_stream(&r.seq, c.k)).collect();
         v.class(match distinct.len() { 0..=4096 => "distinct<=4096", 4097..=20000 => "distinct<=20000", _ => "distinct>20000" });
         v.nontrivial = distinct.len() > 4096;
+        v
+    }
+}
+
+// ---------------------------------------------------------------------------------------------
+// records of more than a million bases (chromosome-sized), expanded from a seed
+
+#[derive(Clone, Debug, Serialize, Deserialize)]
+pub struct LongCase {
+    pub seed: u64,
+    /// record lengths
+    pub lens: Vec<usize>,
+    /// one ambiguous byte every `n_every` bases (0 = none)
+    pub n_every: usize,
+    /// 0 = random bases; p > 0 = the first p random bases repeated (few k-mers, counts beyond 65535)
+    #[serde(default)]
+    pub period: usize,
+    pub k: usize,
+    pub threads: usize,
+    pub chunks: usize,
+}
+
+pub fn long_records(c: &LongCase) -> Vec<Rec> {
+    let mut s = c.seed | 1;
+    c.lens
+        .iter()
+        .enumerate()
+        .map(|(i, &l)| {
+            let mut seq = Vec::with_capacity(l);
+            for j in 0..l {
+                s = crate::util::splitmix(s);
+                let b = if c.period > 0 && j >= c.period { seq[j - c.period] } else { b"ACGT"[(s >> 40) as usize & 3] };
+                seq.push(if c.n_every > 0 && j % c.n_every == c.n_every - 1 { b'N' } else { b });
+            }
+            Rec { id: format!("chr{}", i), desc: None, seq: Bytes(seq) }
+        })
+        .collect()
+}
+
+pub struct Long;
+impl Leg for Long {
+    type Case = LongCase;
+    const NAME: &'static str = "long-records";
+    fn strategy(_tier: Tier) -> BoxedStrategy<LongCase> {
+        let len = prop_oneof![2 => 1_048_570usize..=1_048_700, 2 => 1_048_577usize..=2_300_000, 1 => 200_000usize..=900_000];
+        (any::<u64>(), proptest::collection::vec(len, 1..=2), prop_oneof![2 => Just(0usize), 1 => 50_000usize..=400_000], prop_oneof![1 => 1usize..=10, 2 => 11usize..=20, 1 => 21usize..=31], 1usize..=4, prop::sample::select(vec![1usize, 1, 2]), prop_oneof![2 => Just(0usize), 1 => 1usize..=12])
+            .prop_map(|(seed, lens, n_every, k, threads, chunks, period)| LongCase { seed, lens, n_every, k, threads, chunks, period })
+            .boxed()
+    }
+    fn check(c: &LongCase) -> Verdict {
+        let mut v = Verdict::new();
+        let recs = long_records(c);
+        let dir = crate::scratch_dir();
+        let input = io::write_input(dir.path(), "in", &recs, &Container::plain_fasta());
+        let outdir = dir.path().join("out");
+        std::fs::create_dir_all(&outdir).unwrap();
+        let seqs: Vec<&[u8]> = recs.iter().map(|r| &r.seq.0[..]).collect();
+        let want = model::count_table(&seqs, c.k);
+        let cfg = CtrCfg { k: c.k, threads: c.threads, mem_gb: mem_for_limit(target_limit(&recs, c.chunks)), acgt: false };
+        let o = exec(&io::path_str(&input), &outdir, &cfg, &Sched::Free);
+        v.class("long-records");
+        v.class_if(c.lens.iter().any(|&l| l > (1 << 20)), "record>2^20");
+        v.class_if(want.values().any(|&x| x > 65535), "count>65535");
+        v.nontrivial = c.lens.iter().any(|&l| l > (1 << 20));
+        verdict_of(&mut v, &o, &want, c.k, false, &format!("records of {:?} bases, {} threads, k={}", c.lens, c.threads, c.k));
         v
     }
 }
@@ -369,6 +461,8 @@ pub fn run(ctx: &mut Ctx) {
     ctx.run_leg::<Stress>(n, true, 40);
     let n = ctx.share(ctx.tier.pick(48, 800));
     ctx.run_leg::<Large>(n, true, 30);
+    let n = ctx.share(ctx.tier.pick(8, 96));
+    ctx.run_leg::<Long>(n, true, 6);
     let n = ctx.share(ctx.tier.pick(48, 800));
     ctx.run_leg::<Enum>(n, true, 40);
     let (s, complete, trunc) = SCHEDULES.with(|s| s.get());
@@ -382,6 +476,7 @@ pub fn replay(leg: &str, case: &serde_json::Value) -> Option<Result<Verdict, Str
         "runs" => Some(crate::engine::replay_leg::<Runs>(case)),
         "contention-stress" => Some(crate::engine::replay_leg::<Stress>(case)),
         "large-inputs" => Some(crate::engine::replay_leg::<Large>(case)),
+        "long-records" => Some(crate::engine::replay_leg::<Long>(case)),
         "sched-enum" => Some(crate::engine::replay_leg::<Enum>(case)),
         _ => None,
     }
